@@ -198,16 +198,16 @@ class GeneratorSpec(Spec):
         """the stream presents a word (valid != 0) that must be word i of the run; returns the surviving conventions"""
         ctx = dict(start_position=sp, max_length=ml, word_index=i)
         survivors = []
-        why = None
+        whys = []
         for ip in interps:
             ws = self.words(sp, ml, ds, ip)
             if i >= len(ws):
                 raise Violation("extra-word-after-last", dict(ctx, words_expected=len(ws), valid=o.valid, payload=hex(o.payload)))
             mask, val, lanes = ws[i]
             if o.valid != mask:
-                why = why or ("valid-mask", dict(ctx, expected=bin(mask), got=bin(o.valid), convention=ip)); continue
+                whys.append(("valid-mask", dict(expected=bin(mask), got=bin(o.valid), convention=ip))); continue
             if (o.payload & lanes) != val:
-                why = why or ("payload", dict(ctx, expected=hex(val), got=hex(o.payload & lanes), convention=ip)); continue
+                whys.append(("payload", dict(expected=hex(val), got=hex(o.payload & lanes), convention=ip))); continue
             survivors.append(ip)
         if not survivors:
             # what kind of word is it?  (part of the rule: a full word going wrong is a different defect from a cut one)
@@ -216,8 +216,10 @@ class GeneratorSpec(Spec):
             if (i + 1) * self.B <= nbytes: kind = "full-word"
             elif ml < avail: kind = "word-cut-by-max-length"
             else: kind = "word-short-by-data-length"
-            rule = f"{why[0]}:{kind}" + (":big-endian" if self.endian == "big" else "")
-            raise Violation(rule, why[1])
+            # name it after the convention that got furthest (payload mismatch = the valid mask was accepted)
+            best = next((w for w in whys if w[0] == "payload"), whys[0])
+            rule = f"{best[0]}:{kind}" + (":big-endian" if self.endian == "big" else "")
+            raise Violation(rule, dict(ctx, **best[1], per_convention=[w[1] for w in whys]))
         n = len(self.words(sp, ml, ds, survivors[0]))
         if o.first != (1 if i == 0 else 0):
             raise Violation("first-flag", dict(ctx, expected=int(i == 0), got=o.first))
